@@ -659,6 +659,9 @@ HTTP_DATE_FMT = '%a, %d %b %Y %H:%M:%S GMT'
 class GhostDT:
     """A datetime as far as the header / cookie code uses it: tzinfo, strftime, astimezone (works natively on replay too)."""
 
+    def __pyvc_truth__(self):
+        return True  # datetime objects are always true
+
     def __init__(self, v, tzinfo=None, label='dt'):
         self.v = v
         self.tzinfo = tzinfo
